@@ -1,3 +1,4 @@
 import Driver.Common
--- stub driver (not yet implemented)
-def main : IO Unit := Driver.run () (fun s _ => (s, "bad-op"))
+import SSV.Model.StreamDriver
+/- ssv_c01: line-protocol driver of the SS2022 stream model (toy crypto); protocol in SSV.Model.StreamDriver -/
+def main : IO Unit := Driver.run SSV.Stream.Drv.init SSV.Stream.Drv.step
